@@ -479,11 +479,15 @@ def check_U5(ctx, rep):
         if x.get('k') == 'struct' and len(x.get('fs', [])) == 2 and {f['n'] for f in x['fs']} == {'id', 'elem'}:
             n += 1
             fid = chain_root([f for f in x['fs'] if f['n'] == 'id'][0]['e'])
-            fel = chain_root([f for f in x['fs'] if f['n'] == 'elem'][0]['e'])
+            fel_e = _unwrap_unsafe([f for f in x['fs'] if f['n'] == 'elem'][0]['e'])
+            fel = chain_root(fel_e)
+            inline_fetch = fel_e.get('k') == 'mcall' and fel_e['m'] in ('get_unchecked', 'get')
             ok = False
             why = 'no enclosing root test'
             if fid is not None and fel is not None:
-                if fetched_for(fel['id']) != fid['id']:
+                if inline_fetch:
+                    why = 'the element is fetched in place: no root test of it can precede'
+                elif fetched_for(fel['id']) != fid['id']:
                     why = 'the element was not fetched for the id it is paired with'
                 else:
                     chain = list(parents) + [x]
@@ -621,4 +625,88 @@ def check_U7(ctx, rep, module):
                 rep.viol('U7', path, 'retain-keeps-intersection',
                          'the remove-loop branch computes A \\ B, the `retain` branch keeps A ∩ B (membership test not negated): which one runs '
                          'depends on the relative sizes of the two sets', loc=cr.loc(x))
+    return n
+
+
+# ------------------------------------------------------------------ U8
+
+def check_U8(ctx, rep):
+    """uf: a fresh element is its own root and its own class ring, under the id of the slot it is stored in: in `Elems::push` the `next`
+    and `parent` cells of the pushed Elem hold one local `id`, obtained from `self.next()` (the current length) *before* the vector
+    push, and that id is returned; `UnionFind::push` files the item under the id `elems.push` returned and returns it."""
+    cr = ctx.lib('ascent_byods_rels')
+    n = 0
+    b = cr.bodies.get('uf::elems::Elems::<T>::push')
+    if b is None:
+        raise Broken('U8: uf::elems::Elems::push not found')
+    blk = strip(b['tree'])
+    inits = _let_inits(b)
+    path = b['path']
+    rep.functions.add(path)
+    lit = None
+    for x, parents in walk(b['tree']):
+        if x.get('k') == 'struct' and {'next', 'parent'} <= {f['n'] for f in x.get('fs', [])}:
+            lit = (x, parents)
+    if lit is None:
+        raise Broken('U8: no Elem literal in Elems::push')
+    x, parents = lit
+    roots = {}
+    for f in x['fs']:
+        if f['n'] in ('next', 'parent'):
+            r = chain_root(f['e'])
+            roots[f['n']] = r['id'] if r is not None else None
+    tail = chain_root(blk['e']) if blk.get('k') == 'block' and 'e' in blk else None
+    idl = roots.get('next')
+    init = _unwrap_unsafe(inits[idl]) if idl in inits else None
+    from_next = bool(init and init.get('k') == 'mcall' and init['m'] == 'next' and cname(callee(init) or {}).startswith('uf::elems::Elems'))
+    # order: the `let id` statement precedes the statement that holds the literal
+    order = False
+    if blk.get('k') == 'block':
+        pos_let = pos_lit = None
+        for i, st in enumerate(blk['ss']):
+            if st.get('k') == 'let' and st['p'].get('k') == 'bind' and st['p']['id'] == idl:
+                pos_let = i
+            if _contains(st, lambda y: y is x):
+                pos_lit = i
+        order = pos_let is not None and pos_lit is not None and pos_let < pos_lit
+    ok = idl is not None and roots.get('parent') == idl and from_next and order and tail is not None and tail['id'] == idl
+    n += 1
+    rep.inst('U8', '%s: next = parent = id, id = self.next() taken before the vector push, id returned: %s' % (path, ok))
+    if not ok:
+        what = ('next-parent-differ' if roots.get('parent') != idl else 'id-not-from-length' if not from_next else
+                'id-taken-after-push' if not order else 'other-id-returned')
+        rep.viol('U8', path, 'fresh-element:' + what,
+                 'a fresh element must be its own root and ring under the index of its slot: `next` and `parent` hold the same `id`, taken from '
+                 '`self.next()` before the push, and `push` returns it (%s)' % what, loc=cr.loc(x))
+    b2 = cr.bodies.get('uf::UnionFind::<T>::push')
+    if b2 is None:
+        raise Broken('U8: uf::UnionFind::push not found')
+    rep.functions.add(b2['path'])
+    inits2 = _let_inits(b2)
+    self_id = _self_id(b2)
+    blk2 = strip(b2['tree'])
+    tail2 = chain_root(blk2['e']) if blk2.get('k') == 'block' and 'e' in blk2 else None
+    found = False
+    for y, _ in walk(b2['tree']):
+        if y.get('k') == 'mcall' and y['m'] == 'insert' and _self_field(y['r'], self_id) == 'items' and len(y['a']) == 2:
+            found = True
+            v = chain_root(y['a'][1])
+
+            def from_push(lid, depth=0):
+                """the local is the result of elems.push, or is computed from such a local (any id of the fresh element's class will do)"""
+                init = _unwrap_unsafe(inits2[lid]) if lid in inits2 else None
+                if init is None or depth > 3:
+                    return False
+                if init.get('k') == 'mcall' and init['m'] == 'push' and _self_field(init['r'], self_id) == 'elems':
+                    return True
+                return any(z.get('k') == 'path' and z.get('res') == 'local' and z.get('id') != lid and from_push(z['id'], depth + 1)
+                           for z, _ in walk(inits2[lid]))
+            ok2 = bool(v is not None and from_push(v['id']) and tail2 is not None and from_push(tail2['id']))
+            n += 1
+            rep.inst('U8', '%s: the item is filed under the id returned by elems.push, which is returned: %s' % (b2['path'], ok2))
+            if not ok2:
+                rep.viol('U8', b2['path'], 'item-id-not-from-elems-push',
+                         'the cell stored in `items` and the result of `push` must be (computed from) the id `elems.push` returned for this very item', loc=cr.loc(y))
+    if not found:
+        raise Broken('U8: no items.insert in UnionFind::push')
     return n
